@@ -939,11 +939,29 @@ pub fn svg_line(input: &[u8], o: Opts, ops: &[Op]) -> String {
         Outcome::Ok(q) => {
             let (q2, ops2) = (q.clone(), ops.to_vec());
             match std::panic::catch_unwind(move || svgops::svg_of(&ops2, &q2)) {
-                Ok(s) => format!("{}ok {} {} {}", head, q.size, matrix_hex(q), hex(s.as_bytes())),
+                Ok(s) => format!("{}ok {} {} {} {}", head, q.size, matrix_hex(q), hex(s.as_bytes()), xml_view(&s)),
                 Err(e) => format!("{}trap {}", head, panic_msg(e)),
             }
         }
         _ => format!("{}nobuild {}", head, outcome_short(&r)),
+    }
+}
+
+/// what an independent XML parser (roxmltree) makes of the rendering: `xml:ok:<children of the root>:<hex of the
+/// href of the last image element, or ->` | `xml:err`
+pub fn xml_view(svg: &str) -> String {
+    match roxmltree::Document::parse(svg) {
+        Ok(doc) => {
+            let root = doc.root_element();
+            let n = root.children().filter(|c| c.is_element()).count();
+            let href = root
+                .children()
+                .filter(|c| c.is_element() && c.tag_name().name() == "image")
+                .last()
+                .and_then(|c| c.attribute("href").map(|h| hex(h.as_bytes())));
+            format!("xml:ok:{}:{}", n, href.map_or("-".to_string(), |h| if h.is_empty() { "00".to_string() } else { h }))
+        }
+        Err(_) => "xml:err".to_string(),
     }
 }
 
